@@ -196,3 +196,115 @@ class K5Sem(K4Sem):
     def shrink(self, case):
         for c in pipes.shrink_case(case):
             yield dict(case, tables=c["tables"], pipe=c["pipe"])
+
+
+def with_skel(near, cte_elim):
+    wl = near.to_with_form(cte_cache={} if cte_elim else None)
+    return {"steps": [{"name": _unq(k), "near": near_skel(c.near_sql),
+                       "cols": None if c.columns is None else list(c.columns), "force": bool(c.force_sql)}
+                      for k, c in wl.previous_steps],
+            "last": near_skel(wl.last_step)}
+
+
+def canon_with(w):
+    return {"steps": [{"name": s["name"], "near": canon_skel(s["near"]),
+                       "cols": None if s["cols"] is None else sorted(s["cols"]), "force": s["force"]}
+                      for s in w["steps"]],
+            "last": canon_skel(w["last"])}
+
+
+class K5With(K5Near):
+    """`to_with_form` (with and without the CTE-elimination cache) vs the model's `toWithForm`"""
+    name = "k5_with"
+    gen_opts = dict(fault_rate=0.0, convert_records=0.0, hostile=False, shared=0.8)
+
+    def gen(self, rng, tier):
+        for c in super().gen(rng, tier):
+            # with the cache the real keys contain `list(columns)` / `terms.keys()` in Python set-iteration order, so
+            # whether two sub-queries share a CTE is hash-seed dependent; the structural comparison is done without
+            # the cache, the cached form is compared semantically (K5SemOpt) and proved sound for any faithful key
+            c["cte_elim"] = False
+            yield c
+
+    def real(self, case):
+        try:
+            ops = self._build(case)
+        except Exception as e:
+            return {"build_err": type(e).__name__}
+        m = _model(case["dialect"], case.get("merges", True))
+        try:
+            with warnings.catch_warnings():
+                warnings.simplefilter("ignore")
+                ops.columns_used()
+                near = ops.to_near_sql_implementation_(db_model=m, using=None, temp_id_source=[0])
+                return {"ok": with_skel(near, case.get("cte_elim", False))}
+        except Exception as e:
+            return {"err": type(e).__name__}
+
+    def driver_case(self, case):
+        d = super().driver_case(case)
+        d["cte_elim"] = case.get("cte_elim", False)
+        return d
+
+    def real_canon(self, out, case=None):
+        if isinstance(out, dict) and "ok" in out:
+            return {"ok": canon_with(out["ok"])}
+        return out
+
+    def model_canon(self, out, case=None):
+        if isinstance(out, dict) and "ok" in out:
+            return {"ok": canon_with(out["ok"])}
+        return out
+
+    def nontrivial(self, case, real_out):
+        return isinstance(real_out, dict) and "ok" in real_out and len(real_out["ok"]["steps"]) > 0
+
+
+class K5SemOpt(K5Sem):
+    """the SQL text under use_with / use_cte_elim / merge options executed (SQLite dialect on SQLite; PostgreSQL dialect
+    text on the stand-in engine) vs the model's `semToSql`"""
+    name = "k5_semopt"
+    gen_opts = dict(K4Sem.gen_opts, shared=0.8)
+
+    def gen(self, rng, tier):
+        for c in K4Sem.gen(self, rng, tier):
+            c["dialect"] = "postgres" if rng.random() < 0.5 else "sqlite"
+            c["merges"] = rng.random() < 0.7
+            c["use_with"] = rng.random() < 0.8
+            c["cte_elim"] = rng.random() < 0.7
+            yield c
+
+    def real(self, case):
+        try:
+            ops = self._build(case)
+        except Exception as e:
+            return {"build_err": type(e).__name__}
+        opts = {"use_with": case["use_with"], "use_cte_elim": case["cte_elim"], "annotate": False}
+        if case["dialect"] == "sqlite":
+            return pipes.run_sqlite(ops, case["tables"], sql_options=opts, model=_model("sqlite", case["merges"]))
+        L = pipes.L
+        old = L.PostgreSQL.PostgreSQLModel
+        if not case["merges"]:
+            # run_pg_on_sqlite constructs its own model: switch merges off on the class instance it creates
+            class _NoMerge(old):
+                def __init__(self, *a, **k):
+                    super().__init__(*a, **k)
+                    self.allow_extend_merges = False
+            L.PostgreSQL.PostgreSQLModel = _NoMerge
+        try:
+            out = pipes.run_pg_on_sqlite(ops, case["tables"], options=opts)
+        finally:
+            L.PostgreSQL.PostgreSQLModel = old
+        return out
+
+    def driver_case(self, case):
+        d = K4Sem.driver_case(self, case)
+        # the PostgreSQL-dialect text is executed on the stand-in engine (SQLite): its NULL ordering applies
+        d.update(dialect=case["dialect"], merges=case["merges"], use_with=case["use_with"], cte_elim=case["cte_elim"],
+                 engine="sqlite")
+        return d
+
+    def agree(self, real_c, model_c):
+        if isinstance(real_c, dict) and "skip" in real_c:
+            return True
+        return super().agree(real_c, model_c)
